@@ -110,7 +110,7 @@ CHECKS["C01"] = dict(
 CHECKS["C15"] = dict(
     category="proof",
     text="The real XML writer is executed symbolically over writer histories on the abstract file system: the same writer writing twice, a second writer with another decimal precision (2, 7) constructed in between, and overwrite mode SKIP on an existing (real temporary) file. Postconditions: the second document is identical to the first (date aside) with the same number of elements; the document equals that of an identically constructed writer used alone (float_to_str is a function of value and precision, so a leaked precision shows as a different text term); under SKIP no write reaches the path and the real file is byte-for-byte unchanged.",
-    note="both writers: the XML histories as described; for the protobuf writer (message trees on the pbmodel) the history write_to_file / write_scenario_to_file / write_to_file on one writer object and an XML writer with another precision constructed and used in between, each document compared field by field with the one an identically constructed writer produces alone; SKIP also with the default file name (filename=None, a real file in a scratch working directory) for both formats; not enumerated: all interleavings beyond these histories (finite set of histories, stated); functools.lru_cache and other memoising wrappers are unsupported (such a change makes the check exit 2 = undecided); the module-global precision is modelled as a class-attribute overlay; documents compared as abstract trees (text of numbers compared by value and lexical class)",
+    note="both writers: the XML histories as described; for the protobuf writer (message trees on the pbmodel) the history write_to_file / write_scenario_to_file / write_to_file on one writer object and an XML writer with another precision constructed and used in between, each document compared field by field with the one an identically constructed writer produces alone; SKIP also with the default file name (filename=None, a real file in a scratch working directory) for both formats; not enumerated: all interleavings beyond these histories (finite set of histories, stated); two XML writers of different precision both constructed before either writes (the history a memoising cache shows in); functools.lru_cache is modelled as a memo table keyed by argument equality (a case split per probe for symbolic arguments, no eviction); the module-global precision is modelled as a class-attribute overlay; documents compared as abstract trees (text of numbers compared by value and lexical class)",
     technique="deductive: AST symbolic execution of real writer source over operation histories with an abstract file system, frame/non-interference postconditions discharged by z3",
     design_ref="5/C15",
 )
